@@ -302,6 +302,8 @@ class AbsEval:
             self.unknown.append('powf with possibly negative base')
             return Val(TOPIV, '?')
         rng = Iv(0.0, INF, not (a.iv.lo == 0 and not a.iv.lo_open), True)
+        if a.iv.lo == a.iv.hi == 1.0:
+            return Val(Iv.point(1.0), 'const')
         if e.dir == 'const':
             if e.iv.is_nonneg():
                 d = a.dir
@@ -312,6 +314,8 @@ class AbsEval:
                     rng = Iv(0.0, INF, True, True)
             elif e.iv.is_nonpos():
                 d = _flip(a.dir) if a.iv.is_pos() else '?'
+                if a.iv.lo >= 1.0:
+                    rng = Iv(0.0, 1.0, True, False)
                 if e.iv.lo == e.iv.hi and a.iv.is_pos():
                     c = e.iv.lo
                     rr = iv_mono_inc(a.iv, lambda x: x ** (-c))
